@@ -288,6 +288,29 @@ def lazy_vs_staged(steps, desc, rows, real_lazy, rng):
     alt = S.run_real(variants[name](), desc, rows)
     if S.norm_result(alt) != S.norm_result(real_lazy):
         out.append(('regroup:%s' % name, {'flat': S.norm_result(real_lazy), 'regrouped': S.norm_result(alt)}))
+    # the same regrouping over a one-shot source whose package phase counts its invocations: every step of
+    # the chain takes effect exactly once, however the steps are grouped
+    calls = []
+
+    def counting(package):
+        calls.append(1)
+        yield package.pkg
+        yield from package
+    try:
+        with quiet():
+            gen_sources = [(dict(r) for r in copy.deepcopy(rw)) for rw in rows if rw]
+            if gen_sources:
+                grouped = variants[name]()
+                res_g = Flow(*gen_sources, counting, *grouped).results(on_error=None)[0]
+                flat_g = Flow(*[(dict(r) for r in copy.deepcopy(rw)) for rw in rows if rw], *[f() for f in facts]).results(on_error=None)[0]
+                if len(calls) != 1:
+                    out.append(('regroup:%s:upstream-package-phase-ran-%d-times' % (name, len(calls)), {}))
+                if [[canon.norm_row(canon.enc_row(r)) for r in rs] for rs in res_g] != \
+                        [[canon.norm_row(canon.enc_row(r)) for r in rs] for rs in flat_g]:
+                    out.append(('regroup:%s:one-shot-source' % name, {'rows_flat': [len(r) for r in flat_g],
+                                                                       'rows_regrouped': [len(r) for r in res_g]}))
+    except Exception:
+        pass   # the generated steps may not apply to inferred iterable schemas; the package-source variant above decides
     # (3) the three APIs
     try:
         collected = []
@@ -380,10 +403,13 @@ def user_part(ctx):
         facts = [f for _, f in chosen]
         case = {'user-pipeline': labels, 'n': len(data)}
 
+        one_shot = rng.random() < 0.5
+
         def run(step_objs):
             try:
                 with quiet():
-                    res, dp, _ = Flow(copy.deepcopy(data), *step_objs).results(on_error=None)
+                    src = (dict(r) for r in copy.deepcopy(data)) if one_shot else copy.deepcopy(data)
+                    res, dp, _ = Flow(src, *step_objs).results(on_error=None)
                 return {'ok': canon.enc_pkg(dp.descriptor, res)}
             except Exception as e:  # noqa
                 return {'err': S.classify_exc(e)}
